@@ -53,10 +53,12 @@ Words(s, i, cur, acc) ==
     ELSE Words(s, i + 1, Append(cur, s[i]), acc)
 
 (* case mapping on a fixed alphabet; text outside it has no specified mapping *)
-CaseKnown(c) == c < 128 \/ c \in {201, 233, 223, 304, 963, 962}
-LowerOf(c) == IF c >= 65 /\ c <= 90 THEN <<c + 32>> ELSE IF c = 201 THEN <<233>> ELSE IF c = 304 THEN <<105, 775>> ELSE <<c>>
+(* ... including pairs whose two cases differ in UTF-8 length: KELVIN SIGN (8490) / k, capital sharp s (7838) / 223, 570 / 11365 *)
+CaseKnown(c) == c < 128 \/ c \in {201, 233, 223, 304, 963, 962, 8490, 7838, 570, 11365}
+LowerOf(c) == IF c >= 65 /\ c <= 90 THEN <<c + 32>> ELSE IF c = 201 THEN <<233>> ELSE IF c = 304 THEN <<105, 775>>
+              ELSE IF c = 8490 THEN <<107>> ELSE IF c = 7838 THEN <<223>> ELSE IF c = 570 THEN <<11365>> ELSE <<c>>
 UpperOf(c) == IF c >= 97 /\ c <= 122 THEN <<c - 32>> ELSE IF c = 233 THEN <<201>> ELSE IF c = 223 THEN <<83, 83>>
-              ELSE IF c \in {963, 962} THEN <<931>> ELSE <<c>>
+              ELSE IF c \in {963, 962} THEN <<931>> ELSE IF c = 11365 THEN <<570>> ELSE <<c>>
 AllCaseKnown(s) == \A i \in 1..Len(s) : CaseKnown(s[i])
 RECURSIVE MapCase(_, _, _)
 MapCase(s, i, lower) == IF i > Len(s) THEN <<>> ELSE (IF lower THEN LowerOf(s[i]) ELSE UpperOf(s[i])) \o MapCase(s, i + 1, lower)
